@@ -366,7 +366,7 @@ Matrix::Matrix(std::vector<std::vector<Matrix>> block_matrices)
 	std::vector<unsigned int> block_rows, block_columns;
 	for(unsigned int row = 0; row < block_matrices.size(); row++)
 		block_rows.push_back(block_matrices[row][0].Rows());
-	for(unsigned int col = 0; col < block_matrices[0].size(); col++)
+	for(unsigned int col = 0; !block_matrices.empty() && col < block_matrices[0].size(); col++)
 		block_columns.push_back(block_matrices[0][col].Columns());
 
 	// 2. Assign components
